@@ -430,6 +430,55 @@ def execute(sc, ctx) -> None:
             raise mkp("crash-swallowed", f"fired={fired} raised={raised!r}")
         crash_states(at_crash, after, point, mkp)
 
+    # ---------------- (2b) E1: the process runs out of file descriptors during the call (a low `ulimit -n`, many
+    # beams open, an extraction into hundreds of files).  The soft RLIMIT_NOFILE is set to "what is open now + m":
+    # the (m+1)-th descriptor the call tries to open fails with a REAL EMFILE.  Allowed outcomes: the call raises
+    # (and what is on disk is a set of valid prefixes), or it returns normally and every golden file is there, complete.
+    import resource
+
+    nout = len(final_by_name)
+    for m in sorted({0, 1, 2, nout // 2 + 1, nout, nout + 1, nout + 3}):
+        point = f"E1@+{m}"
+        mkp = mk_for(point)
+        d = os.path.join(ctx.root, "crash")
+        shutil.rmtree(d, ignore_errors=True)
+        os.mkdir(d)
+        raised = None
+        with SimDisk(ctx, []) as sim:
+            sim.begin_op(0, budget=100000)
+            reader = FilReader(fs.paths)
+            gc.collect()
+            soft0, hard0 = resource.getrlimit(resource.RLIMIT_NOFILE)
+            nopen = len(os.listdir("/proc/self/fd")) - 1  # minus the descriptor of the listing itself
+            try:
+                resource.setrlimit(resource.RLIMIT_NOFILE, (max(nopen + m, 3), hard0))
+                try:
+                    invoke(name, reader, d, sc)
+                except SimLivelock as e:
+                    raised = ("SimLivelock", str(e))
+                except Violation:
+                    raise
+                except BaseException as e:  # noqa: BLE001
+                    raised = (type(e).__name__, repr(e)[:200])
+            finally:
+                resource.setrlimit(resource.RLIMIT_NOFILE, (soft0, hard0))
+            del reader
+            gc.collect()
+        if raised is not None and raised[0] == "SimLivelock":
+            raise mkp("livelock", raised[1])
+        after = {os.path.basename(pp): slurp(pp) for pp in list_outputs(d)}
+        ctx.log("E1", m, raised[0] if raised else "ok", sorted((b, len(c)) for b, c in after.items()))
+        if raised is None:
+            ctx.probe("E1:call-succeeded")
+            if after != final_by_name:
+                missing = sorted(set(final_by_name) - set(after))
+                short = sorted(b for b in after if b in final_by_name and after[b] != final_by_name[b])
+                raise mkp("returned-normally-but-incomplete", f"with room for {m} more descriptors the call returned normally; missing {missing}, incomplete or different {short}")
+        else:
+            ctx.probe("E1:descriptor-exhaustion-raised")
+            ctx.faults["E1"] += 1
+            survivors_ok(after, point, mkp)
+
     # ---------------- (3) every byte-length truncation of every final file at or after the header
     for base, fin in sorted(final_by_name.items()):
         _f, hl = filgen.parse_header(fin)
